@@ -7,6 +7,7 @@ import vlib
 
 LEVEL = "model_checking"
 BIN = "mvh_lz"
+VIAS = ("direct", "enum")
 DEC_ACTIONS = ["AddTok", "Start", "Header", "LoadFlags", "Literal", "BackRef", "Finish", "FailShort", "FailType",
                "FailTrunc", "FailRange", "FailBefore", "OpenTrail", "OpenOver", "OpenExt"]
 
@@ -51,9 +52,11 @@ def record_comp(ctx, fmt, profiles):
     cases = vlib.read_ndjson(cpath)
     seen, events = {}, []
     worst_alloc = 0
-    for p in profiles:
-        opath = ctx.path("comp_%s_%s.ndjson" % (fmt, p))
-        res = ctx.isolated(bins[p], ["comp", cpath, opath], len(cases), opath, per_case_timeout=ctx.pick(30.0, 180.0))
+    # both public entry points: LZ10/LZ13CompressionFormat directly and CompressionFormat::LZ10/LZ13 (same spec conditions)
+    for p, via in [(p, via) for p in profiles for via in VIAS]:
+        opath = ctx.path("comp_%s_%s_%s.ndjson" % (fmt, p, via))
+        res = ctx.isolated(bins[p], ["comp", cpath, opath], len(cases), opath, per_case_timeout=ctx.pick(30.0, 180.0),
+                           env={"VERIF_LZ_VIA": via})
         if len(res) != len(cases):
             raise vlib.ToolError("isolated run returned %d results for %d cases" % (len(res), len(cases)))
         for r in res:
@@ -74,11 +77,14 @@ def record_comp(ctx, fmt, profiles):
                               ev["rt"].get("out"), ev["rt"].get("same")])
             if key in seen:
                 seen[key]["profiles"].append(p)
+                seen[key]["via"].append(via)
             else:
                 ev["profiles"] = [p]
+                ev["via"] = [via]
                 seen[key] = ev
                 events.append(ev)
     ctx.extra["inputs"] = len(cases)
+    ctx.extra["entry_points"] = list(VIAS)
     ctx.extra["profiles"] = list(profiles)
     ctx.extra["max_single_allocation"] = worst_alloc
     return cases, events
@@ -95,10 +101,10 @@ def check_comp(ctx, fmt, profiles):
         ev = events[i]
         ctx.violation({"dir": "impl->spec", "op": fmt + ".compress", "tag": ev["tag"], "input_len": in_len(ev),
                        "res": ev["res"]["kind"], "msg": ev["res"]["msg"][:120], "rt": ev["rt"]["kind"],
-                       "profiles": ev["profiles"]},
+                       "profiles": ev["profiles"], "via": ev["via"]},
                       {"event": ev})
     ctx.traces += len(events)
-    ctx.evaluations += len(cases) * len(profiles)
+    ctx.evaluations += len(cases) * len(profiles) * len(VIAS)
     ctx.nontrivial += rep["nref"]
     ctx.extra["events_with_back_reference"] = rep["nref"]
     ctx.extra["terminal_classes"] = rep["tally"]
@@ -130,7 +136,8 @@ def replay_comp(ctx, rp):
     case = {"fmt": ev["fmt"], "tag": ev["tag"]}
     case.update({"pat": ev["pat"], "n": ev["n"]} if big else {"input": ev["input"]})
     vlib.write_ndjson(cpath, [case])
-    res = ctx.isolated(b, ["comp", cpath, opath], 1, opath, per_case_timeout=180.0)
+    res = ctx.isolated(b, ["comp", cpath, opath], 1, opath, per_case_timeout=180.0,
+                       env={"VERIF_LZ_VIA": ev.get("via", ["direct"])[0]})
     r = res[0]
     if "outcome" in r:
         e2 = dict(ev, res=synth(r), rt={"kind": "none", "out": [], "same": False, "alloc": False, "msg": ""})
@@ -148,7 +155,8 @@ def run(ctx):
     ctx.rule = ("MC: every token sequence over {a,b} with output <= %d at scaled constants, every stream variant, decoder "
                 "machine action by action. impl->spec: all inputs over {a,b} up to length %d and {a,b,c} up to %d plus "
                 "seeded structured inputs (runs, periods around 18/256/4096, self-similar with window-edge copies, "
-                "incompressible, text) compressed by the real LZ10 compressor; the stream is decoded by the TLA+ decoder "
+                "incompressible, text) compressed by the real LZ10 compressor through both public entry points (LZ10CompressionFormat and "
+                "CompressionFormat::LZ10); the stream is decoded by the TLA+ decoder "
                 "machine at the real constants; plus size-boundary inputs given by generator (run / period 3, 17, 4096 repeated to "
                 "0xFFFF..0x10001, 65810, 65811, 70000, 0x20000, 140000 and 16 MiB-2, 16 MiB-1 bytes) judged by the validating "
                 "decoder (same layouts and checks, out replaced by the known expected output). Non-trivial = event whose stream made the decoder take >= 1 BackRef step "
